@@ -471,12 +471,31 @@ func TestVerifC18ChildWorker(t *testing.T) {
 		if len(parts) != 2 {
 			continue
 		}
-		_, err := NewLoader(parts[0]).Load(parts[1])
+		// one loader, the failing description resolved repeatedly, then every other description of the
+		// directory, then the failing one again: each call must return (a config or an error), and the
+		// failing one must fail every time
+		l := NewLoader(parts[0])
+		_, err := l.Load(parts[1])
+		verdict := "NIL"
 		if err != nil {
-			fmt.Printf("VERIFC18 ERR %s\n", strings.ReplaceAll(err.Error(), "\n", " "))
-		} else {
-			fmt.Printf("VERIFC18 NIL\n")
+			verdict = "ERR " + strings.ReplaceAll(err.Error(), "\n", " ")
+			if cfg, err2 := l.Load(parts[1]); err2 == nil {
+				verdict = fmt.Sprintf("SECOND-LOAD-NIL after an error, config=%v", cfg != nil)
+			}
+			names, _ := l.ListTargets()
+			for _, n := range names {
+				if cfg, e := l.Load(n); e == nil && (cfg == nil || cfg.Name != n) {
+					verdict = "NIL-CONFIG-WITHOUT-ERROR for " + n
+				}
+			}
+			if _, err3 := l.Load(parts[1]); err3 == nil {
+				verdict = "THIRD-LOAD-NIL after an error"
+			}
+			if _, err4 := NewResolver(parts[0]).Resolve(parts[1]); err4 == nil {
+				verdict = "RESOLVER-NIL"
+			}
 		}
+		fmt.Printf("VERIFC18 %s\n", verdict)
 	}
 	os.Exit(0)
 }
